@@ -17,7 +17,19 @@
     (SetSync(true), which itself flushes) writeToFile flushes after every write;
     rotateFile flushes the old file and writes the header of the new one
     directly.  The harness looks at the directory only right after a flush, and
-    runs GC right after one, so GC works on the sizes a flush leaves.  [create] opens
+    runs GC right after one, so GC works on the sizes a flush leaves.
+
+    create() opens the generated name with O_APPEND|O_CREATE.  Within one
+    syncBuffer the monotonic time stamps make every name new; but closing the
+    file (directory re-targeted, end of a scope, the CloseFile hook) discards
+    the syncBuffer and its lastRotation, so a re-open within the same second
+    generates the name of the file written last: its content stays and the
+    header entries and the new messages are appended to it, while
+    syncBuffer.nbytes restarts from the header alone.  The model follows a
+    collision with the newest file; the clock being behind the newest file's
+    name (possible after several rotations within one second, each bumping the
+    stamp by one) is excluded by the hypotheses of the theorems and never
+    produced by the harness.  [create] opens
     with O_APPEND|O_CREATE: the model assumes the generated name is new, which
     the monotonic time stamps guarantee for one logger. *)
 From Shk Require Import Base.Prelude.
@@ -55,7 +67,20 @@ Definition on_disk (s : lstate) : list lfile :=
     than the previous one if the clock has not advanced past it. *)
 Definition do_rotate (now h : Z) (s : lstate) : lstate :=
   let st := if now <=? last_rot s then last_rot s + 1 else now in
-  mkState (mkFile st h [] :: dir s) true h st (maxsz s) (syncw s) 0 0.
+  let fresh := mkState (mkFile st h [] :: dir s) true h st (maxsz s) (syncw s) 0 0 in
+  match dir s with
+  | f :: tl =>
+      if f_stamp f =? st
+      then (* the name exists: O_APPEND keeps what is there *)
+        mkState (mkFile st (f_size f + h) (f_msgs f) :: tl) true h st (maxsz s) (syncw s) 0 0
+      else fresh
+  | [] => fresh
+  end.
+
+(** closeFileLocked after a flush (the CloseFile hook): the next write creates
+    a new syncBuffer, whose lastRotation is 0. *)
+Definition do_close (s : lstate) : lstate :=
+  mkState (dir s) false (nbytes s) 0 (maxsz s) (syncw s) 0 0.
 
 Definition append_msg (id len : Z) (s : lstate) : lstate :=
   match dir s with
@@ -114,6 +139,7 @@ Inductive rop :=
 | RSetMax (m : Z)
 | RGc (bound : Z)
 | RSetSync (b : bool)      (* SetSync(b); SetSync(true) also calls Flush() *)
+| RClose                   (* flush and close the file; the next write re-opens *)
 | RSnap                    (* Flush(), then look at the directory *)
 | RPeek.                   (* look at the directory without flushing *)
 
@@ -125,6 +151,7 @@ Definition rstep (h : Z) (s : lstate) (o : rop) : lstate :=
   | RSetSync b =>
       let s' := mkState (dir s) (is_open s) (nbytes s) (last_rot s) (maxsz s) b (ubytes s) (ucount s) in
       if b then do_flush s' else s'
+  | RClose => do_close s
   | RSnap => do_flush s
   | RPeek => s
   end.
